@@ -1504,6 +1504,12 @@ func ruleLineCountStep(c *Ctx) {
 	}
 	text := ssa.Value(fn.Params[0])
 	loops := naturalLoops(fn)
+	if len(loops) == 0 {
+		// closed form: (#LF) + (#CR) - (#CRLF) over the whole parameter, in any order of the terms
+		ok, why := lineCountClosedForm(fn, text)
+		c.Check(ok, "LINECOUNT-STEP", "lineCount:closed-form", fn.Pos(), why)
+		return
+	}
 	if len(loops) != 1 {
 		c.Undecided("LINECOUNT-STEP", "lineCount:loop", fn.Pos(), "expected exactly one loop")
 		return
@@ -1643,4 +1649,68 @@ func ruleLineCountStep(c *Ctx) {
 		}
 	}
 	c.Check(len(bad) == 0, "LINECOUNT-STEP", "lineCount", fn.Pos(), fmt.Sprintf("%d (byte, look-ahead) cases; deviations: %s", n, strings.Join(bad, "; ")))
+}
+
+// lineCountClosedForm: every returned value is a sum/difference of bytes.Count(text, sep) terms with total coefficients
+// +1 for "\n", +1 for "\r", -1 for "\r\n" (CRLF was counted once as LF and once as CR).
+func lineCountClosedForm(fn *ssa.Function, text ssa.Value) (bool, string) {
+	rets := returnsOf(fn)
+	if len(rets) == 0 {
+		return false, "no return"
+	}
+	for _, r := range rets {
+		if len(r.Results) != 1 {
+			return false, "unexpected result arity"
+		}
+		coef := map[string]int{}
+		okAll := true
+		why := ""
+		var w func(v ssa.Value, sign int)
+		w = func(v ssa.Value, sign int) {
+			switch x := v.(type) {
+			case *ssa.BinOp:
+				switch x.Op {
+				case token.ADD:
+					w(x.X, sign)
+					w(x.Y, sign)
+					return
+				case token.SUB:
+					w(x.X, sign)
+					w(x.Y, -sign)
+					return
+				}
+			case *ssa.Call:
+				if f := x.Call.StaticCallee(); f != nil && f.Pkg != nil && f.Pkg.Pkg.Path() == "bytes" && f.Name() == "Count" && x.Call.Args[0] == text {
+					if sep, ok := byteSliceLit(x.Call.Args[1]); ok {
+						coef[string(sep)] += sign
+						return
+					}
+					if cv, ok := x.Call.Args[1].(*ssa.Convert); ok {
+						if str, ok := constString(cv.X); ok {
+							coef[str] += sign
+							return
+						}
+					}
+				}
+			}
+			okAll = false
+			why = "term that is not bytes.Count(text, constant): " + v.String()
+		}
+		w(r.Results[0], 1)
+		if !okAll {
+			return false, why
+		}
+		for sep, k := range coef {
+			want := map[string]int{"\n": 1, "\r": 1, "\r\n": -1}[sep]
+			if k != want {
+				return false, fmt.Sprintf("separator %q is counted with coefficient %d", sep, k)
+			}
+		}
+		for _, sep := range []string{"\n", "\r", "\r\n"} {
+			if _, ok := coef[sep]; !ok {
+				return false, fmt.Sprintf("separator %q is not counted", sep)
+			}
+		}
+	}
+	return true, "#LF + #CR - #CRLF over the whole text: LF, CR and CRLF count as one line ending each"
 }
